@@ -118,15 +118,25 @@ def plan_back_conversion_callable(
                     ):
                         par_sub_dict[paramname] = paramvalue
                     tlower_with_pars = tinterval.lower.substitute(par_sub_dict)
-                    flu_subs_dict: Dict = {}
-                    for flu_obj in fve.get(tlower_with_pars):
-                        if flu_obj.fluent() in pruned_fluents:
-                            flu_subs_dict[flu_obj] = original_state.get_value(flu_obj)
-                        else:
-                            flu_subs_dict[flu_obj] = state.get_value(flu_obj)
-                    tlower_constant = simplifier.simplify(
-                        tlower_with_pars.substitute(flu_subs_dict)
-                    )
+                    tlower_constant = simplifier.simplify(tlower_with_pars)
+                    while not tlower_constant.is_constant():
+                        # NOTE a fluent nested in the parameters of another one is
+                        # resolved first; the outer one becomes ground in the next pass
+                        flu_subs_dict: Dict = {}
+                        for flu_obj in fve.get(tlower_constant):
+                            if not all(a.is_constant() for a in flu_obj.args):
+                                continue
+                            if flu_obj.fluent() in pruned_fluents:
+                                flu_subs_dict[flu_obj] = original_state.get_value(
+                                    flu_obj
+                                )
+                            else:
+                                flu_subs_dict[flu_obj] = state.get_value(flu_obj)
+                        if not flu_subs_dict:
+                            break
+                        tlower_constant = simplifier.simplify(
+                            tlower_constant.substitute(flu_subs_dict)
+                        )
                     dtime = Fraction(tlower_constant.constant_value())
             else:
                 # NOTE if open use min step
